@@ -17,6 +17,9 @@ Schedules (all steered by events, never by sleeps or deadlines):
      afterwards the lock must be free (acquire/release counts of the ended thread, follow-up operations unblocked).
   G  an earlier save() is still in its output phase (slow target) while the owner, half-way through an update inside
      `with tree:`, calls a snapshot operation itself and a third thread reads: the reader may only see committed states.
+  R  the reader is paused right after its last release of the tree lock (the operation may still be writing its output),
+     a writer runs half a critical section, the reader goes on: the result is the committed state and the operation does
+     not fail; also with DictWrapper data that the writer updates in place.
   D  a (nested) critical section is left through an exception (user Exception, BaseException, refused
      library call); once that thread has ended the event log must show the lock released as often as
      acquired, and readers then run every snapshot operation without finding the lock taken.
@@ -44,7 +47,7 @@ from ..core import rng_for, short_tb
 
 PROP = "C18"
 LEVEL = "exploration"
-RULE = ("case = one schedule point: (schedule A|B|C|D|F|G, snapshot operation, writer style in {relabel, rebuild, mixed}, writer "
+RULE = ("case = one schedule point: (schedule A|B|C|D|F|G|R, snapshot operation, writer style in {relabel, rebuild, mixed}, writer "
         "phase p of m, nesting depth, number of readers; D: kind of exception that ends the critical section) or one stress run (seed, writers, readers, iterations); every "
         "(operation x style x phase) cell is enumerated; non-trivial = schedule with a writer phase strictly inside the "
         "critical section, schedule B or D, or a stress run with >= 1 observed blocking; distinct by case description")
@@ -833,6 +836,122 @@ def schedule_G(case, res):
         res.violation(case, "; ".join(dict.fromkeys(b for b in bad if b))[:2500], events=[e for e in log.events if e[1] != "try"][-40:])
 
 
+def _build_dw_tree(ver):
+    """The same tree with DictWrapper data: the version label lives *inside* the wrapped dict."""
+    from nutree import Tree
+    from nutree.common import DictWrapper
+
+    t = Tree("shared-dw")
+    for g in range(G):
+        top = t.add(DictWrapper({"label": f"g{g}@v{ver}", "pad": g}), data_id=f"g{g}")
+        for c in range(C):
+            top.add(DictWrapper({"label": f"g{g}c{c}@v{ver}", "pad": c}), data_id=f"g{g}c{c}")
+    return t
+
+
+def schedule_R(case, res):
+    """The reader is paused right after it has given up the tree lock for the last time (still inside the snapshot operation:
+    e.g. save() writes its output then); a writer runs half of a critical section; the reader goes on.  Whatever the operation
+    still does after the lock, it works on the snapshot: the result is the committed state, and it does not fail."""
+    from nutree.common import DictWrapper
+
+    from .. import locktrack
+
+    op, style = case["op"], case["style"]
+    dw = bool(case.get("dw"))
+    log = Log()
+    t = _build_dw_tree(0) if dw else build_tree(0)
+    lk = attach_log(t, log)
+    if not isinstance(lk, locktrack.Tracked):
+        res.inconc("schedule R needs the tracking lock")
+        return
+    tmpdir = tempfile.mkdtemp(prefix="vmon-c18-")
+    bad, errors, results = [], [], {}
+    released, resume = threading.Event(), threading.Event()
+    rid = {}
+
+    def after_release(me, depth):
+        if me == rid.get("r") and depth <= 0 and not released.is_set():
+            released.set()
+            resume.wait(WATCHDOG)
+
+    lk.after_release = after_release
+
+    def reader():
+        rid["r"] = threading.get_ident()
+        log.add("call", rid["r"], op)
+        try:
+            if dw:
+                fp = io.StringIO()
+                if op == "save_stream":
+                    t.save(fp, mapper=DictWrapper.serialize_mapper)
+                    results["r"] = [e[1]["label"] for e in json.loads(fp.getvalue())["nodes"]]
+                else:
+                    results["r"] = []
+
+                    def rec(lst):
+                        for d in lst:
+                            results["r"].append(d["label"])
+                            rec(d.get("children", []))
+
+                    rec(t.to_dict_list(mapper=DictWrapper.serialize_mapper))
+            else:
+                results["r"] = labels_of(op, run_op(op, t, tmpdir))
+        except Exception:
+            errors.append(f"{op}: the operation failed after a writer had started its critical section behind it: " + short_tb(5))
+        log.add("ret", rid["r"], op)
+        released.set()
+
+    def writer():
+        if not released.wait(WATCHDOG):
+            return
+        try:
+            with t:
+                if dw:
+                    nodes = list(t)
+                    for n in nodes[: len(nodes) // 2]:
+                        n.data._dict["label"] = n.data._dict["label"].replace("@v0", "@v1")  # the data objects are updated in place
+                    resume.set()
+                    log.wait_for(lambda evs: any(e[1] == "ret" and e[2] == rid.get("r") for e in evs))
+                    for n in nodes[len(nodes) // 2:]:
+                        n.data._dict["label"] = n.data._dict["label"].replace("@v0", "@v1")
+                else:
+                    steps = writer_steps(t, style, 0)
+                    p = max(1, len(steps) // 2)
+                    for s_ in steps[:p]:
+                        s_()
+                    resume.set()
+                    log.wait_for(lambda evs: any(e[1] == "ret" and e[2] == rid.get("r") for e in evs))
+                    for s_ in steps[p:]:
+                        s_()
+        except Exception:
+            errors.append("writer raised: " + short_tb(4))
+        finally:
+            resume.set()
+
+    tr = threading.Thread(target=reader, daemon=True)
+    tw = threading.Thread(target=writer, daemon=True)
+    tr.start()
+    tw.start()
+    tr.join(WATCHDOG * 2)
+    tw.join(WATCHDOG * 2)
+    lk.after_release = None
+    shutil.rmtree(tmpdir, ignore_errors=True)
+    if tr.is_alive() or tw.is_alive():
+        res.inconc("schedule R: watchdog fired")
+        return
+    res.count("cell:R")
+    if "r" in results:
+        msg = check_snapshot(results["r"], {0, 1})
+        res.count("snapshots_checked")
+        if msg:
+            bad.append(f"{op}{' (DictWrapper data updated in place)' if dw else ''}: paused after its last release of the tree lock while a "
+                       f"writer ran half a critical section: {msg}")
+    bad += errors
+    if bad:
+        res.violation(case, "; ".join(dict.fromkeys(bad))[:2500])
+
+
 class _RaisingHook:
     """Callback hook that fails at its k-th invocation (a user callback with a bug, a data object that cannot be mapped)."""
 
@@ -856,13 +975,20 @@ def schedule_F(case, res):
     tmpdir = tempfile.mkdtemp(prefix="vmon-c18-")
     bad, seen = [], []
 
+    def one_call():
+        if op == "save_badpath":
+            # the target cannot be opened (folder does not exist): an OSError from the operation itself
+            t.save(os.path.join(tmpdir, "no-such-folder", "x.json"), compression=bool(k % 2))
+        else:
+            run_op(op, t, tmpdir, hook=_RaisingHook(k))
+
     def reader():
         try:
             if case.get("nested"):
                 with t:
-                    run_op(op, t, tmpdir, hook=_RaisingHook(k))
+                    one_call()
             else:
-                run_op(op, t, tmpdir, hook=_RaisingHook(k))
+                one_call()
             seen.append("returned")
         except BaseException as e:  # noqa: BLE001
             seen.append(type(e).__name__)
@@ -879,7 +1005,9 @@ def schedule_F(case, res):
     rid = th.ident
     acq = sum(1 for e in log.events if e[1] == "acquired" and e[2] == rid)
     rel = sum(1 for e in log.events if e[1] == "released" and e[2] == rid)
-    if acq < 1:
+    if acq < 1 and op == "save_badpath":
+        res.count("badpath_failed_before_locking")  # the target is opened before the lock is taken: nothing to leak
+    elif acq < 1:
         res.inconc("schedule F: the operation never acquired the tree lock")
     elif rel != acq:
         bad.append(f"{op}: ended by an exception from the user's callback (call #{k}, outcome {seen}); the tree lock was acquired {acq}x but "
@@ -1062,6 +1190,9 @@ def _run_case(case, res):
     if k == "G":
         res.case(case, nontrivial=True)
         return schedule_G(case, res)
+    if k == "R":
+        res.case(case, nontrivial=True)
+        return schedule_R(case, res)
     return stress(case, res)
 
 
@@ -1096,10 +1227,18 @@ def all_points(tier):
         for owner_op in (("save_stream", "save_path") if tier == "quick" else ("save_stream", "save_path", "save_zip", "copy", "to_dict_list")):
             for style in (("rebuild",) if tier == "quick" else STYLES):
                 pts.append({"kind": "G", "op": op, "owner_op": owner_op, "style": style})
+    for op in OPS:
+        for style in (("rebuild",) if tier == "quick" else STYLES):
+            pts.append({"kind": "R", "op": op, "style": style})
+    for op in ("save_stream", "to_dict_list"):
+        pts.append({"kind": "R", "op": op, "style": "inplace", "dw": True})
     for op in OPS_WITH_CALLBACK:
         for k in ((1, 3, 8) if tier == "quick" else (1, 2, 3, 5, 8, 12)):
             for nested in (False, True):
                 pts.append({"kind": "F", "op": op, "k": k, "nested": nested})
+    for k in (1, 2):
+        for nested in (False, True):
+            pts.append({"kind": "F", "op": "save_badpath", "k": k, "nested": nested})
     for nest in (1, 2, 3):
         for exc in ("user", "base", "library"):
             for style in STYLES:
@@ -1108,9 +1247,11 @@ def all_points(tier):
     # the same schedule points on a TypedTree whose kinds change from version to version (rebuild/mixed styles)
     typed_pts = []
     for pt in pts:
+        if pt["kind"] == "R" and pt.get("dw"):
+            continue
         if pt["kind"] == "G":
             continue  # TypedTree.save() writes its output while it still holds the lock: there is no unlocked output phase
-        if pt["kind"] in ("C", "D", "F") or (pt.get("style") in ("rebuild", "mixed") and (tier != "quick" or pt.get("phase", 1) in (1, 2) or pt["kind"] == "B")):
+        if pt["kind"] in ("C", "D", "F", "R") or (pt.get("style") in ("rebuild", "mixed") and (tier != "quick" or pt.get("phase", 1) in (1, 2) or pt["kind"] == "B")):
             typed_pts.append({**pt, "typed": True})
     return pts + typed_pts
 
